@@ -107,33 +107,64 @@ def plain_forms(vc):
     vc.ensure('C06/add_signal/plain/post/data-changed-by-exactly-the-returned-signal', Implies(inr, eq(f.fields['data'].at((i, j)), d0.at((i, j)) + sig.at((i, j)))))
 
 
-def spec_pixel(p, S, fp, bpf, i, j, flags, nt, nf, ns, tp_callable, path_callable, bp_kind):
-    """The property's formula for pixel (i, j) (inside the bounding range)."""
+def grids(vc, p, flags, nt, nf, b0, b1):
+    """The sub-sample grids, built with numpy's own linspace formula (so that arguments of the user callables are
+    syntactically the terms the code computes), and - as separate pure-arithmetic lemmas - equal to the documented
+    grids ts[i] + k*dt/nt and fs[j] + k*df/nf."""
+    int_path, int_t, int_f, smear = flags
+    T, dt, df = p['T'], p['dt'], p['df']
+    Teff = T + 1 if smear else T
+    G = {}
+    i, k, j = Int('gi'), Int('gk'), Int('gj')
+    ts0 = p['ts'].at((0,))         # the grids start at the frame's own first time stamp (T0; 0 for a stand-alone frame)
+    ts_of = lambda r: p['T0'] + r * dt
+    if int_t:
+        G['t'] = vc.interp.binop('Add', ts0, L.np_linspace(vc.interp, 0, T * dt, T * nt, endpoint=False))
+        vc.ensure('C01/add_signal/lemma/time-subgrid-is-ts[i]+k*dt/nt',
+                  Implies(And(i >= 0, i < T, k >= 0, k < nt), eq(G['t'].at((i * nt + k,)), ts_of(i) + k * dt / nt)), kind='lemma')
+    if int_path:
+        G['p'] = vc.interp.binop('Add', ts0, L.np_linspace(vc.interp, 0, Teff * dt, Teff * nt, endpoint=False))
+        vc.ensure('C01/add_signal/lemma/path-subgrid-is-ts[i]+k*dt/nt',
+                  Implies(And(i >= 0, i < Teff, k >= 0, k < nt), eq(G['p'].at((i * nt + k,)), ts_of(i) + k * dt / nt)), kind='lemma')
+    if int_f:
+        f0 = p['fs'].at((b0,))
+        rc = b1 - b0
+        G['f'] = L.np_linspace(vc.interp, f0, f0 + rc * df, rc * nf, endpoint=False)
+        vc.ensure('C01/add_signal/lemma/frequency-subgrid-is-fs[j]+k*df/nf',
+                  Implies(And(j >= b0, j < b1, k >= 0, k < nf), eq(G['f'].at(((j - b0) * nf + k,)), p['fs'].at((j,)) + k * df / nf)), kind='lemma')
+    return G
+
+
+def spec_pixel(p, S, fp, G, i, j, b0, flags, nt, nf, ns, tp_callable, path_callable):
+    """The property's formula for pixel (i, j) inside the bounding range, over the grids above."""
     int_path, int_t, int_f, smear = flags
     dt, df = p['dt'], p['df']
-    ts_i = lambda r: r * dt          # the frame's own time axis (T0 = 0); row T is the end time stamp
+    ts_i = lambda r: p['ts'].at((r,)) if True else r * dt
+
+    def ts_ext(r):
+        # frame.ts_ext: ts followed by ts[-1] + dt
+        return sym_if(Sym.lift(r) < p['T'], p['ts'].at((r,)), p['ts'].at((p['T'] - 1,)) + dt)
 
     def tp(r):
         if tp_callable and int_t:
-            return L.sum_term(nt, lambda k: S['tp'](ts_i(r) + k * dt / nt, r)) / nt
-        return S['tp'](ts_i(r), r)
+            return L.sum_term(nt, lambda k: S['tp'](G['t'].at((r * nt + k,)), r)) / nt
+        return S['tp'](p['ts'].at((r,)), r)
 
     def pth(r):
         if path_callable and int_path:
-            return L.sum_term(nt, lambda k: S['path'](ts_i(r) + k * dt / nt, r)) / nt
-        return S['path'](ts_i(r), r)
-
-    def prod(fq, bq, centre):
-        return tp(i) * fp.apply_scalar(fq, centre) * bq
+            return L.sum_term(nt, lambda k: S['path'](G['p'].at((r * nt + k,)), r)) / nt
+        return S['path'](ts_ext(r) if smear else p['ts'].at((r,)), r)
 
     def at_freq(k):
-        """frequency sample and bandpass value for sub-sample k of channel j (k = 0 when not integrating)."""
-        fq = p['fs'].at((j,)) + (k * df / nf if int_f else 0)
+        if int_f:
+            fq = G['f'].at(((j - b0) * nf + k,))
+        else:
+            fq = p['fs'].at((j,))
         return fq, S['bp'](fq, j, k)
 
     def smeared(fq, bq):
         if not smear:
-            return prod(fq, bq, pth(i))
+            return tp(i) * fp.apply_scalar(fq, pth(i)) * bq
         dp = (pth(i + 1) - pth(i)) / ns
         return L.sum_term(ns, lambda m: tp(i) * fp.apply_scalar(fq, pth(i) + m * dp) / ns * bq)
 
@@ -143,17 +174,23 @@ def spec_pixel(p, S, fp, bpf, i, j, flags, nt, nf, ns, tp_callable, path_callabl
 
 
 class SmearLoop:
-    """Invariant of add_signal/loop#0 (accumulation of the smeared copies)."""
+    """Invariant of add_signal/loop#0 (accumulation of the smeared copies), instantiated at the given points."""
 
-    def __init__(self, vc, i, j, ns):
-        self.vc, self.i, self.j, self.ns = vc, i, j, ns
+    def __init__(self, vc, points):
+        self.vc, self.points = vc, points
+        self.p0 = None
 
     def havoc(self, interp, env, k, phase):
         sg, pt = env.get('signal'), env.get('path_tt')
-        self.p0 = getattr(self, 'p0', None) or SArr(pt.shape, pt._snapshot(), 'real')
+        if self.p0 is None:
+            self.p0 = SArr(pt.shape, pt._snapshot(), 'real')
         env.set('signal', symbolic_array('signal_h', sg.shape))
         env.set('path_tt', symbolic_array('path_tt_h', pt.shape))
         env.vars.pop('_', None)
+        if phase == 'pres':
+            for (i, j) in self.points:
+                # definition of the finite sum at the step being taken
+                self.vc.sum_step(k, (lambda i, j: (lambda m: self.term(env, m, i, j)))(i, j))
 
     def term(self, env, m, i, j):
         t, ff, bp, dp = env.get('t_profile_tt'), env.get('ff'), env.get('bp_profile_ff'), env.get('dpath_tt')
@@ -162,32 +199,59 @@ class SmearLoop:
         return t.at((i, j)) * fpf.apply_scalar(ff.at((i, j)), self.p0.at((i, j)) + m * dp.at((i, j))) / n * bp.at((i, j))
 
     def inv(self, interp, env, k):
-        if not hasattr(self, 'p0') or self.p0 is None:
+        if self.p0 is None:
             pt = env.get('path_tt')
             self.p0 = SArr(pt.shape, pt._snapshot(), 'real')
         sg, pt, dp = env.get('signal'), env.get('path_tt'), env.get('dpath_tt')
-        i, j = self.i, self.j
-        inr = And(i >= 0, i < sg.shape[0], j >= 0, j < sg.shape[1])
-        Sk = L.sum_term(k, lambda m: self.term(env, m, i, j))
-        return Implies(inr, And(eq(sg.at((i, j)), Sk), eq(pt.at((i, j)), self.p0.at((i, j)) + k * dp.at((i, j)))))
+        cs = []
+        for (i, j) in self.points:
+            inr = And(i >= 0, i < sg.shape[0], j >= 0, j < sg.shape[1])
+            Sk = L.sum_term(k, (lambda i, j: (lambda m: self.term(env, m, i, j)))(i, j))
+            cs.append(Implies(inr, And(eq(sg.at((i, j)), Sk), eq(pt.at((i, j)), self.p0.at((i, j)) + k * dp.at((i, j))))))
+        return And(*cs)
 
 
-@contract('C01', 'flags_callable', functions=[ADD])
-def flags_callable(vc):
-    """All inputs callable; every combination of the four options; sub-sample counts symbolic."""
-    fl = vc.choose(16, 'flags')
-    flags = (bool(fl & 1), bool(fl & 2), bool(fl & 4), bool(fl & 8))     # int_path, int_t, int_f, smear
-    use_b = bool(vc.choose(2, 'bounding'))
-    run_flag_case(vc, flags, use_b, 'callable', 'callable', 'callable')
+@contract('C01', 'flags_callable_time', functions=[ADD])
+def flags_callable_time(vc):
+    """All inputs callable; integrate_path / integrate_t_profile / doppler_smearing in every combination (symbolic counts)."""
+    fl = vc.choose(8, 'flags')
+    flags = (bool(fl & 1), bool(fl & 2), False, bool(fl & 4))
+    run_flag_case(vc, flags, bool(vc.choose(2, 'bounding')), 'callable', 'callable', 'callable')
+
+
+@contract('C01', 'flags_callable_freq', functions=[ADD])
+def flags_callable_freq(vc):
+    """integrate_f_profile with every combination of the time options (f_subsamples symbolic; no smearing)."""
+    fl = vc.choose(4, 'flags')
+    flags = (bool(fl & 1), bool(fl & 2), True, False)
+    run_flag_case(vc, flags, bool(vc.choose(2, 'bounding')), 'callable', 'callable', 'callable')
+
+
+@contract('C01', 'flags_other_forms', functions=[ADD])
+def flags_other_forms(vc):
+    """Smearing / frequency integration with array and scalar inputs (integration of path/time only applies to callables)."""
+    path_form = ('array', 'scalar', 'callable')[vc.choose(3, 'path')]
+    t_form = ('array', 'scalar')[vc.choose(2, 't_profile')]
+    bp_form = ('none', 'array', 'scalar')[vc.choose(3, 'bp')]
+    fl = vc.choose(2, 'flags')          # smearing alone / frequency integration alone (their combination: bounded run only)
+    flags = (False, False, fl == 1, fl == 0)
+    run_flag_case(vc, flags, bool(vc.choose(2, 'bounding')), path_form, t_form, bp_form)
 
 
 def run_flag_case(vc, flags, use_b, path_form, t_form, bp_form):
     int_path, int_t, int_f, smear = flags
-    f, p = frame_obj(vc, True)
+    T0 = Real('T0')               # the time axis may be shifted (cadence injection): ts[i] = T0 + i*dt
+    f, p = frame_obj(vc, True, T0=T0)
+    p['T0'] = T0
     rng_bounds, b0, b1 = bounding(vc, p, use_b)
     vc.assume(b0 < b1)
-    nt, nf, ns = Int('t_subsamples'), Int('f_subsamples'), Int('smearing_subsamples')
-    vc.assume(And(nt >= 1, nf >= 1, ns >= 1))
+    nt, ns = Int('t_subsamples'), Int('smearing_subsamples')
+    vc.assume(And(nt >= 1, ns >= 1))
+    if int_f and smear:
+        nf = 2 + vc.choose(2, 'f_subsamples')       # the accumulation invariant is instantiated once per frequency sub-sample
+    else:
+        nf = Int('f_subsamples')
+        vc.assume(nf >= 1)
     path, tp, S = make_inputs(vc, p, path_form, t_form, bp_form, smear)
     fp = FP()
     if bp_form == 'callable':
@@ -202,13 +266,16 @@ def run_flag_case(vc, flags, use_b, path_form, t_form, bp_form):
         bp = c
         S['bp'] = lambda fq, j, k: c
     else:
-        ln = smax(b1 - b0, 0) * (nf if int_f else 1)
-        a = symbolic_array('bp_arr', (ln,))
+        mult = nf if int_f else 1
+        a = symbolic_array('bp_arr', (smax(b1 - b0, 0) * mult,))
         bp = a
-        S['bp'] = lambda fq, j, k: a.at(((j - b0) * (nf if int_f else 1) + k,))
-    i, j = Int('i'), Int('j')
+        S['bp'] = lambda fq, j, k: a.at(((j - b0) * mult + k,))
+    # the pixel the obligations talk about: row ii, column b0 + jj (ii, jj universally quantified)
+    ii, jj = Int('ii'), Int('jj')
+    i, j = ii, b0 + jj
     if smear:
-        vc.interp.loop_specs[(ADD, 0)] = SmearLoop(vc, Int('ii'), Int('jj'), ns)
+        pts = [(ii, jj * nf + k) for k in range(nf)] if int_f else [(ii, jj)]
+        vc.interp.loop_specs[(ADD, 0)] = SmearLoop(vc, pts)
     out = vc.call(ADD, f, path, tp, fp, bp_profile=bp, bounding_f_range=rng_bounds, integrate_path=int_path, integrate_t_profile=int_t,
                   integrate_f_profile=int_f, doppler_smearing=smear, t_subsamples=nt, f_subsamples=nf, smearing_subsamples=ns)
     tag = f"flags[{'P' if int_path else '-'}{'T' if int_t else '-'}{'F' if int_f else '-'}{'S' if smear else '-'}]/{path_form[0]}{t_form[0]}{bp_form[0]}"
@@ -217,7 +284,87 @@ def run_flag_case(vc, flags, use_b, path_form, t_form, bp_form):
     if not out.ok:
         return
     sig = out.value
+    G = grids(vc, p, flags, nt, nf, b0, b1)
     inr = And(i >= 0, i < p['T'], j >= b0, j < b1)
-    want = spec_pixel(p, S, fp, None, i, j, flags, nt, nf, ns, t_form == 'callable', path_form == 'callable', bp_form)
+    want = spec_pixel(p, S, fp, G, i, j, b0, flags, nt, nf, ns, t_form == 'callable', path_form == 'callable')
     vc.ensure(f'C01/add_signal/{tag}/post/pixel-is-the-documented-average', Implies(inr, eq(sig.at((i, j)), want)))
-    vc.ensure(f'C01/add_signal/{tag}/post/zero-outside-bounding-range', Implies(And(i >= 0, i < p['T'], j >= 0, j < p['n'], Not(And(j >= b0, j < b1))), eq(sig.at((i, j)), 0)))
+    j2 = Int('j_out')
+    vc.ensure(f'C01/add_signal/{tag}/post/zero-outside-bounding-range',
+              Implies(And(ii >= 0, ii < p['T'], j2 >= 0, j2 < p['n'], Not(And(j2 >= b0, j2 < b1))), eq(sig.at((ii, j2)), 0)))
+
+
+@contract('C01', 'input_validation', functions=[ADD])
+def input_validation(vc):
+    """Arrays of a wrong length raise ValueError; an input that is none of callable/list/ndarray/int/float raises TypeError."""
+    which = ('t_len', 'path_len', 'bp_len', 't_type', 'path_type', 'bp_type')[vc.choose(6, 'case')]
+    f, p = frame_obj(vc, True)
+    T, n = p['T'], p['n']
+    m = Int('m')
+    vc.assume(m >= 0)
+    tp, path, bp = Real('tpc'), Real('pc'), None
+    bad = I.SObj(None, {}, tag='not-a-valid-input')
+    if which == 't_len':
+        tp = symbolic_array('tp_arr', (m,))
+        vc.assume(Not(eq(m, T)))
+    elif which == 'path_len':
+        path = symbolic_array('path_arr', (m,))
+        vc.assume(Not(eq(m, T)))
+    elif which == 'bp_len':
+        bp = symbolic_array('bp_arr', (m,))
+        vc.assume(Not(eq(m, n)))
+    elif which == 't_type':
+        tp = bad
+    elif which == 'path_type':
+        path = bad
+    else:
+        bp = bad
+    d0 = p['data']
+    w0 = d0.writes
+    out = vc.call(ADD, f, path, tp, FP(), bp_profile=bp)
+    want = 'ValueError' if which.endswith('len') else 'TypeError'
+    vc.ensure(f'C01/add_signal/validation/{which}/raises-{want}', And(not out.ok, out.exc == want))
+    vc.ensure(f'C01/add_signal/validation/{which}/frame-untouched', f.fields['data'].writes == w0)
+
+
+FUN = 'setigen.funcs'
+
+
+@contract('C01', 'profile_factories', functions=[FUN + '.paths:constant_path', FUN + '.paths:squared_path', FUN + '.paths:sine_path', FUN + '.t_profiles:constant_t_profile',
+                                                 FUN + '.t_profiles:sine_t_profile', FUN + '.f_profiles:box_f_profile', FUN + '.f_profiles:gaussian_f_profile',
+                                                 FUN + '.f_profiles:lorentzian_f_profile', FUN + '.f_profiles:sinc2_f_profile', FUN + '.bp_profiles:constant_bp_profile',
+                                                 FUN + '.func_utils:gaussian', FUN + '.func_utils:lorentzian'])
+def profile_factories(vc):
+    t, f0, d, c, w, f = Real('t'), Real('f_start'), Real('drift'), Real('centre'), Real('width'), Real('f')
+    vc.assume(w > 0)
+    call = lambda key, *a, **k: vc.interp.call_key(key, *a, **k)
+    ap = lambda fn, *a: vc.interp.call(fn, list(a), {})
+    vc.ensure('C01/constant_path/post', eq(ap(call(FUN + '.paths:constant_path', f0, d), t), f0 + d * t))
+    vc.ensure('C01/squared_path/post', eq(ap(call(FUN + '.paths:squared_path', f0, d), t), f0 + d * t * t / 2))
+    per, amp = Real('period'), Real('amplitude')
+    vc.assume(per > 0)
+    vc.ensure('C01/sine_path/post', eq(ap(call(FUN + '.paths:sine_path', f0, d, per, amp), t), f0 + amp * L.UF_SIN(2 * L.PI * t / per) + d * t))
+    lv = Real('level')
+    vc.ensure('C01/constant_t_profile/post/scalar', eq(ap(call(FUN + '.t_profiles:constant_t_profile', lv), t), lv))
+    n = Int('n')
+    vc.assume(n >= 1)
+    arr = symbolic_array('tarr', (n,))
+    r = ap(call(FUN + '.t_profiles:constant_t_profile', lv), arr)
+    i = Int('i')
+    vc.ensure('C01/constant_t_profile/post/array', And(isinstance(r, SArr), eq(r.shape[0], n), Implies(And(i >= 0, i < n), eq(r.at((i,)), lv))))
+    ph = Real('phase')
+    vc.ensure('C01/sine_t_profile/post', eq(ap(call(FUN + '.t_profiles:sine_t_profile', per, ph, amp, lv), t), amp * L.UF_SIN(2 * L.PI * (t + ph) / per) + lv))
+    vc.ensure('C01/constant_bp_profile/post', eq(ap(call(FUN + '.bp_profiles:constant_bp_profile', lv), f), lv))
+    box = ap(call(FUN + '.f_profiles:box_f_profile', w), symbolic_array('ff', (n,)), c)
+    box1 = ap(call(FUN + '.f_profiles:box_f_profile', w), SArr((n,), lambda idx: f, 'real'), c)
+    vc.ensure('C01/box_f_profile/post/1-iff-within-half-width', Implies(And(i >= 0, i < n), eq(box1.at((i,)), sym_if(abs(f - c) < w / 2, 1, 0))))
+    lor = ap(call(FUN + '.f_profiles:lorentzian_f_profile', w), f, c)
+    vc.ensure('C01/lorentzian_f_profile/post/formula', eq(lor, 1 / (1 + ((f - c) / (w / 2)) * ((f - c) / (w / 2)))))
+    vc.ensure('C01/lorentzian_f_profile/post/1-at-centre-half-at-half-width',
+              And(eq(ap(call(FUN + '.f_profiles:lorentzian_f_profile', w), c, c), 1), eq(ap(call(FUN + '.f_profiles:lorentzian_f_profile', w), c + w / 2, c) * 2, 1)))
+    g = ap(call(FUN + '.f_profiles:gaussian_f_profile', w), f, c)
+    sig = w / (2 * sqrt(2 * L._log(2)))
+    vc.ensure('C01/gaussian_f_profile/post/formula', eq(g, L.UF_EXP(-((f - c) * (f - c)) / (2 * (sig * sig)))))
+    vc.ensure('C01/gaussian_f_profile/post/1-at-centre', eq(ap(call(FUN + '.f_profiles:gaussian_f_profile', w), c, c), 1))
+    s2 = ap(call(FUN + '.f_profiles:sinc2_f_profile', w), SArr((n,), lambda idx: f, 'real'), c)
+    vc.ensure('C01/sinc2_f_profile/post/zero-outside-half-width-sinc2-inside',
+              Implies(And(i >= 0, i < n), eq(s2.at((i,)), sym_if(abs(f - c) < w / 2, L.UF_SINC((f - c) / (w / 2)) * L.UF_SINC((f - c) / (w / 2)), 0))))
